@@ -16,12 +16,22 @@ every `pollPeriod`, every list `pending` of waiting messages, every clock `nsPer
 transposition table — and every `go` parameter set (depth, movetime, clock times), so every interruption point at
 every ply and in every iteration, and every timing of stop or move-time expiry, is covered.
 
-Hypotheses.  `BoardLaws` (H1: `unmake ∘ make` restores the visible position of a well-formed board for every generated
-move; H2: a generated move passing `isValid` leads to a well-formed board) are the conclusions of the make/unmake and
-generator properties and are assumed here.  H3 (every board function the search uses depends on the visible position
-`WF.vis` only) is PROVED: `BoardCongr.genPseudo_congr`, `genNonQuiescent_congr`, `isValid_congr`, `wf_congr`,
-`make_congr`, `unmake_congr`, `evaluate_congr`, `hash_congr`, `pawnHash_congr`, `plyClock_congr`, and lifted to the
-whole search: `Search.goCmd_congr` (states that differ in the scratch words only produce the same output).
+Hypotheses.
+* H1 (`unmake ∘ make` restores the visible position of a well-formed board for every generated move) is PROVED
+  (`Search.unmake_make_of_generated`, from C03).
+* H2' `BoardLaws.make_inv` (WF step with clock budget): a generated move that passes `isValid` takes a board with
+  `Inv (k+1)` to a board with `Inv k`, where `Inv k b := wf b ∧ b.halfmove + k ≤ 4095 ∧ b.fullmove + k < 2^31`.
+  (The unbudgeted form `wf b → wf (make b m)` is FALSE: `wf` bounds the half-move clock by the 12-bit undo field of the
+  packed move and the full-move counter by 2^31; a quiet move from `halfmove = 4095` leaves the well-formed boards.)
+* H3 (every board function the search uses depends on the visible position `WF.vis` only) is PROVED:
+  `BoardCongr.genPseudo_congr`, `genNonQuiescent_congr`, `isValid_congr`, `wf_congr`, `make_congr`, `unmake_congr`,
+  `evaluate_congr`, `hash_congr`, `pawnHash_congr`, `plyClock_congr`, and lifted to the whole search:
+  `Search.goCmd_congr` (states that differ in the scratch words only produce the same output).
+
+Side conditions (real limits of the engine).  A node searched with recursion fuel `fuel` needs `Inv fuel s.board`: the
+search may go `fuel` plies deep and every ply advances the clocks.  A `go` whose deepest iteration has depth ≤ `maxIter`
+searches with fuel ≤ `maxIter + 200`, so it needs `Inv (goBudget maxIter) s.board`, `goBudget maxIter = maxIter + 201`,
+i.e. `wf s.board`, `s.board.halfmove + maxIter + 201 ≤ 4095` and `s.board.fullmove + maxIter + 201 < 2^31`.
 
 The position is compared through `WF.vis` (the board without the two scratch occupancy words `occupancy[NO_PIECE]`
 that `make`/`unmake` scribble on, which no function ever reads back into the position).
@@ -32,52 +42,61 @@ open Inkayaku.Search Inkayaku.Board Inkayaku.WF
 /-! ## the bracket: every search function returns the board it was given -/
 
 /-- `search_quiescence`, every exit path -/
-theorem quiescence_board (L : BoardLaws) (fuel : Nat) (s : St) (α β : Int) (hwf : wf s.board = true) :
+theorem quiescence_board (L : BoardLaws) (fuel : Nat) (s : St) (α β : Int) (hwf : Inv fuel s.board) :
     vis (quiescence fuel s α β).2.board = vis s.board :=
   quiescence_ok L fuel s α β hwf
 
 /-- the move loop of `search_quiescence`, entered with any list of generated moves -/
 theorem quiescenceLoop_board (L : BoardLaws) (fuel : Nat) (s : St) (moves : List Move) (α β : Int) (bm : Option Move)
-    (bc : Option VM) (hwf : wf s.board = true) (hmoves : ∀ m ∈ moves, m ∈ genPseudo s.board ∨ m ∈ genNonQuiescent s.board) :
+    (bc : Option VM) (hwf : Inv (fuel + 1) s.board) (hmoves : ∀ m ∈ moves, m ∈ genPseudo s.board ∨ m ∈ genNonQuiescent s.board) :
     vis (quiescenceLoop fuel s moves α β bm bc).2.board = vis s.board :=
   qLoop_of_q L (quiescence_ok L fuel) s.board hwf moves hmoves s α β bm bc rfl
 
 /-- `search_negamax`, every exit path: illegal move, cut-off, abort by flag at any node, time-out return,
 transposition-table return, repetition return, out of fuel -/
 theorem negamax_board (L : BoardLaws) (fuel : Nat) (s : St) (ply maxPly : Nat) (α β : Int) (isPv : Bool) (h ph : UInt64)
-    (hwf : wf s.board = true) :
+    (hwf : Inv fuel s.board) :
     vis (negamax fuel s ply maxPly α β isPv h ph).2.board = vis s.board :=
   negamax_ok L fuel s ply maxPly α β isPv h ph hwf
 
 /-- the move loop of `search_negamax`, entered with any list of generated moves and any accumulator -/
 theorem negamaxLoop_board (L : BoardLaws) (fuel : Nat) (s : St) (moves : List Move) (ply maxPly : Nat) (β : Int)
-    (isPv : Bool) (pvMove : Option Move) (h ph : UInt64) (rem : Nat) (acc : LoopAcc) (hwf : wf s.board = true)
+    (isPv : Bool) (pvMove : Option Move) (h ph : UInt64) (rem : Nat) (acc : LoopAcc) (hwf : Inv (fuel + 1) s.board)
     (hmoves : ∀ m ∈ moves, m ∈ genPseudo s.board ∨ m ∈ genNonQuiescent s.board) :
     vis (negamaxLoop fuel s moves ply maxPly β isPv pvMove h ph rem acc).2.2.board = vis s.board :=
   nLoop_of_n L (negamax_ok L fuel) s.board hwf moves hmoves s ply maxPly β isPv pvMove h ph rem acc rfl
 
 /-- the iterative deepening loop of `best_move`, any number of iterations from any depth -/
 theorem deepen_board (L : BoardLaws) (n : Nat) (s : St) (d maxThinking : Nat) (best : Option VM)
-    (uciPv : Option (List Move)) (score : Option Eval.Score) (hwf : wf s.board = true) :
+    (uciPv : Option (List Move)) (score : Option Eval.Score) (hwf : Inv (fuelFor d + n) s.board) :
     vis (deepen n s d maxThinking best uciPv score).2.board = vis s.board :=
   Search.deepen_board L n s d maxThinking best uciPv score hwf
 
 /-- **a `go` — completed or interrupted at any point — does not alter the position the engine holds** -/
-theorem go_preserves_board (L : BoardLaws) (s : St) (g : GoParams) (maxIter : Nat) (hwf : wf s.board = true) :
+theorem go_preserves_board (L : BoardLaws) (s : St) (g : GoParams) (maxIter : Nat)
+    (hwf : wf s.board = true) (hhalf : s.board.halfmove + (maxIter + 201) ≤ 4095)
+    (hfull : s.board.fullmove + (maxIter + 201) < 2147483648) :
     vis (goCmd s g maxIter).board = vis s.board :=
-  Search.go_preserves_board L s g maxIter hwf
+  Search.go_preserves_board L s g maxIter ⟨hwf, hhalf, hfull⟩
+
+/-- the same with the side conditions packed into `Inv (goBudget maxIter)` -/
+theorem go_preserves_board' (L : BoardLaws) (s : St) (g : GoParams) (maxIter : Nat) (hinv : Inv (goBudget maxIter) s.board) :
+    vis (goCmd s g maxIter).board = vis s.board :=
+  Search.go_preserves_board L s g maxIter hinv
 
 /-- … and the position stays well-formed, so the next `go` starts under the same hypotheses -/
-theorem go_preserves_wf (L : BoardLaws) (s : St) (g : GoParams) (maxIter : Nat) (hwf : wf s.board = true) :
-    wf (goCmd s g maxIter).board = true := by
-  rw [BoardCongr.wf_congr (Search.go_preserves_board L s g maxIter hwf)]; exact hwf
+theorem go_preserves_inv (L : BoardLaws) (s : St) (g : GoParams) (maxIter : Nat) (k : Nat)
+    (hinv : Inv (goBudget maxIter) s.board) (hk : Inv k s.board) :
+    Inv k (goCmd s g maxIter).board :=
+  Inv_congr (Search.go_preserves_board L s g maxIter hinv).symm hk
 
 /-- **any number of consecutive (possibly interrupted) searches without a position command**: between two searches
 anything may happen to the search thread that does not touch the board (`GoStep.env`: messages arrive, `ucinewgame`,
 poll period / clock / pending messages change) -/
-theorem session_preserves_board (L : BoardLaws) (xs : List GoStep) (s : St) (hwf : wf s.board = true) :
+theorem session_preserves_board (L : BoardLaws) (xs : List GoStep) (s : St)
+    (hinv : ∀ x ∈ xs, Inv (goBudget x.maxIter) s.board) :
     vis (runGos s xs).board = vis s.board :=
-  Search.session_preserves_board L xs s hwf
+  Search.session_preserves_board L xs s hinv
 
 
 /-- **the following `go` searches the same position as before**: after a first search (completed or interrupted in any
@@ -85,13 +104,13 @@ way) a second `go` without a position command produces exactly the output it wou
 the board held before the first search, and it again leaves that position in place.  (`Search.goCmd_congr`: the search
 depends on the visible position only, so the scratch words left behind by the first search are irrelevant.) -/
 theorem next_go_searches_same_position (L : BoardLaws) (s : St) (g1 g2 : GoParams) (n1 n2 : Nat)
-    (hwf : wf s.board = true) :
+    (hinv1 : Inv (goBudget n1) s.board) (hinv2 : Inv (goBudget n2) s.board) :
     (goCmd (goCmd s g1 n1) g2 n2).out = (goCmd { goCmd s g1 n1 with board := s.board } g2 n2).out ∧
     vis (goCmd (goCmd s g1 n1) g2 n2).board = vis s.board := by
-  have h1 := Search.go_preserves_board L s g1 n1 hwf
+  have h1 := Search.go_preserves_board L s g1 n1 hinv1
   have he : Eqv { goCmd s g1 n1 with board := s.board } (goCmd s g1 n1) := ⟨(goCmd s g1 n1).board, h1, rfl⟩
   refine ⟨(goCmd_congr he g2 n2).1, ?_⟩
-  rw [Search.go_preserves_board L _ g2 n2 (by rw [BoardCongr.wf_congr h1]; exact hwf), h1]
+  rw [Search.go_preserves_board L _ g2 n2 (Inv_congr h1.symm hinv2), h1]
 
 /-! ## the answer of an interrupted search -/
 
@@ -144,7 +163,9 @@ theorem bestmove_none_iff_no_completed_iteration (s : St) (g : GoParams) (maxIte
 #print axioms negamaxLoop_board
 #print axioms deepen_board
 #print axioms go_preserves_board
-#print axioms go_preserves_wf
+#print axioms go_preserves_board'
+#print axioms go_preserves_inv
+#print axioms Search.unmake_make_of_generated
 #print axioms session_preserves_board
 #print axioms next_go_searches_same_position
 #print axioms Search.goCmd_congr
@@ -163,11 +184,15 @@ theorem bestmove_none_iff_no_completed_iteration (s : St) (g : GoParams) (maxIte
 
 /-! ## non-vacuity -/
 
-/-- the hypothesis `wf s.board` holds for the initial state -/
-example : wf Search.initial.board = true := by decide +kernel
+/-- the side conditions hold for the initial state: budget for iterations up to depth 64 -/
+example : Inv (goBudget 64) Search.initial.board := ⟨by decide +kernel, by decide, by decide⟩
+example : wf Search.initial.board = true ∧ Search.initial.board.halfmove + (64 + 201) ≤ 4095 ∧
+    Search.initial.board.fullmove + (64 + 201) < 2147483648 := ⟨by decide +kernel, by decide, by decide⟩
+/-- … and for every go of the session `threeGos` below -/
+example : ∀ k, k ≤ 3000 → Inv k Search.initial.board := fun k hk =>
+  ⟨by decide +kernel, by show 0 + k ≤ 4095; omega, by show 1 + k < 2147483648; omega⟩
 
-/-- the `BoardLaws` fields, evaluated on every generated move of the start position (evidence, not a proof: the laws
-are the conclusions of the make/unmake and generator properties) -/
+/-- H1 and the unbudgeted part of H2', evaluated on every generated move of the start position -/
 def lawsHoldAt (b : Board) : Bool :=
   (genPseudo b ++ genNonQuiescent b).all fun m =>
     vis (unmake (make b m) m) == vis b && (!isValid (make b m) || wf (make b m))
